@@ -33,6 +33,15 @@ func init() {
 		Doc: "every link reported to the link callback is the link of the item popped, in the same step, from the stack of the version it is " +
 			"reported for (added: new stack, removed: old stack) — so a reported name is a node of that version.",
 		Run: runLINKPROV})
+	Register(&Rule{ID: "NOTIFY", Props: []string{"C07"}, Min: 4,
+		Doc: "every link recorded for the link callback is recorded only where alreadyNotified(memo of that side, that link) has answered false, " +
+			"and alreadyNotified answers false (not yet notified) on each of its error paths — so a node is neither reported twice nor dropped.",
+		Run: runNOTIFY})
+	Register(&Rule{ID: "DIFFREADS", Props: []string{"C15"}, Min: 4,
+		Doc: "every node read of the diff is one the cost bound accounts for: the entry points read nodes only through the diff step; when the two " +
+			"loaded nodes start with the same key both are expanded and neither item is pushed back; alreadyNotified loads only the link it " +
+			"is asked about and the single-link pass-through nodes below it.",
+		Run: runDIFFREADS})
 	Register(&Rule{ID: "DIFFSHORTCUT", Props: []string{"C15"}, Min: 5,
 		Doc: "in the both-links case of the diff step the old and the new link are compared; every node load of that case lies on the unequal " +
 			"edge, the equal edge returns without a load and without pushing either item back; when both stacks are empty the step ends " +
@@ -598,6 +607,59 @@ type lpVerdict struct {
 	und   bool
 	why   string
 	short string
+	site  ssa.Instruction // call site at which a bad value enters a helper
+}
+
+// linkValProv: is v the link of the item popped from the stack of side want?
+// A link parameter of a helper is traced to the argument at every call site.
+func (S *sidesInfo) linkValProv(v ssa.Value, want side, use ssa.Instruction, depth int) lpVerdict {
+	if depth > 4 {
+		return lpVerdict{und: true, why: "provenance too deep", short: "untraceable link"}
+	}
+	if item, isLink := S.itemLink(v); isLink {
+		return S.itemProv(item, want, use, depth)
+	}
+	switch x := ir.ResolveCell(ir.Strip(v)).(type) {
+	case *ssa.Parameter:
+		fn := x.Parent()
+		idx := -1
+		for i, p := range fn.Params {
+			if p == x {
+				idx = i
+			}
+		}
+		n := 0
+		for _, cs := range S.P.Callers[fn] {
+			if !S.slice[cs.Parent()] || idx < 0 || idx >= len(cs.Common().Args) {
+				continue
+			}
+			n++
+			if r := S.linkValProv(cs.Common().Args[idx], want, cs, depth+1); !r.ok {
+				r.why = fmt.Sprintf("%s passes %s as %s of %s: %s", ir.FuncName(cs.Parent()), sdDesc(cs.Common().Args[idx]), x.Name(), fn.Name(), r.why)
+				if r.site == nil {
+					r.site = cs
+				}
+				return r
+			}
+		}
+		if n == 0 {
+			return lpVerdict{und: true, why: "link parameter of a function without a call site in the diff", short: "untraceable link"}
+		}
+		return lpVerdict{ok: true, why: fmt.Sprintf("link parameter %s: at all %d call site(s) the link of the item popped from the %s stack", x.Name(), n, want)}
+	case *ssa.Phi:
+		for _, e := range x.Edges {
+			if r := S.linkValProv(e, want, use, depth+1); !r.ok {
+				return r
+			}
+		}
+		return lpVerdict{ok: true, why: "all alternatives are links of items popped from the " + want.String() + " stack"}
+	}
+	kind := "added"
+	if want == sdOld {
+		kind = "removed"
+	}
+	return lpVerdict{short: sdDescShape(v),
+		why: fmt.Sprintf("the link reported as %s is %s, not the link of the item popped from the %s stack in this step: a name that is not (known to be) a node of that version would be reported", kind, sdDesc(v), want)}
 }
 
 // itemProv: is item an item popped from the stack of side want, before use?
@@ -731,20 +793,19 @@ func runLINKPROV(c *Ctx) {
 					c.OK(pos, what, "reset to nil", true)
 					continue
 				}
-				item, isLink := S.itemLink(st.Val)
-				if !isLink {
-					c.Violation(fn, pos, fmt.Sprintf("%s link (%s) <- %s", kind, sl.field.Name(), sdDescShape(st.Val)),
-						fmt.Sprintf("the link reported as %s is %s, not the link of the item popped from the %s stack in this step: a name that is not (known to be) a node of that version would be reported", kind, sdDesc(st.Val), want))
-					continue
+				v := S.linkValProv(st.Val, want, st, 0)
+				vfn, vpos := fn, pos
+				if v.site != nil {
+					// the offending value enters at a call site of the helper
+					vfn, vpos = v.site.Parent(), P.InstrPos(v.site)
 				}
-				v := S.itemProv(item, want, st, 0)
 				switch {
 				case v.ok:
 					c.OK(pos, what, v.why, false)
 				case v.und:
-					c.Undecided(fn, pos, fmt.Sprintf("%s link (%s) <- %s", kind, sl.field.Name(), v.short), v.why)
+					c.Undecided(vfn, vpos, fmt.Sprintf("%s link (%s) <- %s", kind, sl.field.Name(), v.short), v.why)
 				default:
-					c.Violation(fn, pos, fmt.Sprintf("%s link (%s) <- %s", kind, sl.field.Name(), v.short),
+					c.Violation(vfn, vpos, fmt.Sprintf("%s link (%s) <- %s", kind, sl.field.Name(), v.short),
 						fmt.Sprintf("the link reported as %s must be the link of the item popped from the %s stack; %s", kind, want, v.why))
 				}
 			}
@@ -1468,9 +1529,15 @@ func runCBPROP(c *Ctx) {
 				continue
 			}
 			for _, i := range ifs {
+				// a callback may return (false, err): `return nil` on the
+				// keepGoing==false edge is right only where err is known nil
+				errKnownNil := e == nil || nilFactOn(i.If.Block(), e, true)
 				kk.mustStop("keepGoing==false of the "+name, i.OnFalse, func(op ssa.Value) bool {
-					return ir.IsNilConst(op) || (e != nil && sameValue(op, e))
-				}, "nil", ci)
+					if e != nil && sameValue(op, e) {
+						return true
+					}
+					return ir.IsNilConst(op) && errKnownNil
+				}, "nil (with the callback's error known to be nil) or that error", ci)
 			}
 		}
 	}
@@ -1598,3 +1665,620 @@ func cbpCursorEnd(c *Ctx, S *sidesInfo, fn, step *ssa.Function) {
 }
 
 var _ = types.Identical
+
+// ---- NOTIFY -----------------------------------------------------------------------
+
+// reportSlots: the state fields read by the link callback -> required side.
+func reportSlots(S *sidesInfo) map[*sdSlot]side {
+	report := map[*sdSlot]side{}
+	for _, fn := range S.fns {
+		for _, ci := range CallsOf(fn) {
+			if S.callbackKind(ci) != "link" {
+				continue
+			}
+			args := ci.Common().Args
+			rem, isC := ir.ConstBool(args[S.linkRemovedIdx])
+			sl := S.slotRef(args[S.linkLinkIdx])
+			if !isC || sl == nil {
+				continue
+			}
+			if rem {
+				report[sl] = sdOld
+			} else {
+				report[sl] = sdNew
+			}
+		}
+	}
+	return report
+}
+
+// sameLink: two values denote the same link (same SSA value, or loads of the
+// link field of the same item, or the same symbolic path).
+func (S *sidesInfo) sameLink(a, b ssa.Value) bool {
+	a, b = ir.ResolveCell(ir.Strip(a)), ir.ResolveCell(ir.Strip(b))
+	if a == b {
+		return true
+	}
+	ia, oka := S.itemLink(a)
+	ib, okb := S.itemLink(b)
+	if oka && okb && ia == ib {
+		return true
+	}
+	return false
+}
+
+// notNotifiedGuard: block b is only entered after a call of notified(…, link)
+// returned false for this link; returns that call.
+func (S *sidesInfo) notNotifiedGuard(b *ssa.BasicBlock, notified *ssa.Function, link ssa.Value) *ssa.Call {
+	for _, f := range sdExpandFacts(ir.FactsAt(b), 0) {
+		cond, truth := f.Cond, f.Truth
+		for {
+			u, ok := cond.(*ssa.UnOp)
+			if !ok || u.Op != token.NOT {
+				break
+			}
+			cond, truth = u.X, !truth
+		}
+		call, ok := cond.(*ssa.Call)
+		if !ok || truth || call.Call.StaticCallee() != notified || len(call.Call.Args) == 0 {
+			continue
+		}
+		if S.sameLink(call.Call.Args[len(call.Call.Args)-1], link) {
+			return call
+		}
+	}
+	return nil
+}
+
+func runNOTIFY(c *Ctx) {
+	S := sidesReady(c)
+	if S == nil {
+		return
+	}
+	P := c.P
+	notified := c.MustFunc("(*Mast).alreadyNotified")
+	if notified == nil {
+		return
+	}
+	np := len(notified.Params)
+	if np < 3 || !sdIsBool(notified.Signature.Results().At(0).Type()) {
+		c.AnchorMissing("(*Mast).alreadyNotified(…, memo, link) bool")
+		return
+	}
+	if _, isIface := notified.Params[np-1].Type().Underlying().(*types.Interface); !isIface {
+		c.AnchorMissing("link (last) parameter of alreadyNotified")
+		return
+	}
+	report := reportSlots(S)
+	if len(report) == 0 {
+		c.Undecided(nil, "-", "no link callback invocation", "no field read by the link callback found")
+		return
+	}
+	// (1) every recording of a link is guarded by !alreadyNotified(memo of that side, that link)
+	check := func(fn *ssa.Function, st *ssa.Store, sl *sdSlot, want side) {
+		if ir.IsNilConst(st.Val) {
+			return
+		}
+		pos := P.InstrPos(st)
+		kind := "added"
+		if want == sdOld {
+			kind = "removed"
+		}
+		what := fmt.Sprintf("%s link recorded (%s = %s) in %s", kind, sl.field.Name(), sdDesc(st.Val), ir.FuncName(fn))
+		g := S.notNotifiedGuard(st.Block(), notified, st.Val)
+		if g == nil {
+			c.Violation(fn, pos, fmt.Sprintf("%s link (%s) recorded without the !%s guard", kind, sl.field.Name(), notified.Name()),
+				fmt.Sprintf("%s is set to %s on a path on which %s has not answered false for this very link: the same node can be reported to the link callback more than once", sl.name, sdDesc(st.Val), notified.Name()))
+			return
+		}
+		memo := S.slotRef(g.Call.Args[np-2])
+		if ms := S.sideOf(g.Call.Args[np-2]); ms != sdNone && ms != want {
+			c.Violation(fn, pos, fmt.Sprintf("%s link (%s) guarded by the %s memo", kind, sl.field.Name(), ms),
+				fmt.Sprintf("%s is recorded under !%s, but the memo consulted is the %s one", sl.name, notified.Name(), ms))
+			return
+		}
+		mn := "memo"
+		if memo != nil {
+			mn = memo.name
+		}
+		c.OK(pos, what, "only where "+notified.Name()+"("+mn+", this link) answered false", false)
+	}
+	for _, fn := range S.fns {
+		for _, b := range fn.Blocks {
+			for _, ins := range b.Instrs {
+				st, ok := ins.(*ssa.Store)
+				if !ok {
+					continue
+				}
+				if sl, _ := S.storeRoot(st.Addr); sl != nil {
+					if want, isRep := report[sl]; isRep {
+						check(fn, st, sl, want)
+					}
+					continue
+				}
+				// store through a pointer parameter bound to the address of a report field
+				p, isP := st.Addr.(*ssa.Parameter)
+				if !isP {
+					continue
+				}
+				idx := -1
+				for i, q := range fn.Params {
+					if q == p {
+						idx = i
+					}
+				}
+				for _, cs := range P.Callers[fn] {
+					if !S.slice[cs.Parent()] || idx < 0 || idx >= len(cs.Common().Args) {
+						continue
+					}
+					if fa, isFA := cs.Common().Args[idx].(*ssa.FieldAddr); isFA {
+						if sl := S.sidedField(fa.X.Type(), fa.Field); sl != nil {
+							if want, isRep := report[sl]; isRep {
+								check(fn, st, sl, want)
+							}
+						}
+					}
+				}
+			}
+		}
+	}
+	// (2) alreadyNotified answers false on its error paths
+	nErr := 0
+	for _, ci := range CallsOf(notified) {
+		call, ok := ci.(*ssa.Call)
+		if !ok {
+			continue
+		}
+		_, e := cbResults(call)
+		if e == nil || !ir.IsErrorType(e.Type()) {
+			continue
+		}
+		for _, ni := range nilIfsOf(notified, e) {
+			nErr++
+			reach := ir.ReachableFrom(ni.nonNil, nil)
+			bad := false
+			for _, r := range ir.Returns(notified) {
+				if !reach[r.Block()] || len(r.Results) == 0 {
+					continue
+				}
+				if k, isC := ir.ConstBool(r.Results[0]); !isC || k {
+					c.Violation(notified, P.InstrPos(r), "error path of "+lpCallNameOf(call)+" does not answer false",
+						fmt.Sprintf("when %s fails, %s must answer false (not yet notified) so that the link is still recorded and the caller meets the same error; here it can answer %s: a node is silently left out of the node diff", lpCallNameOf(call), notified.Name(), sdDesc(r.Results[0])))
+					bad = true
+				}
+			}
+			if !bad {
+				c.OK(P.InstrPos(call), "error path of "+lpCallNameOf(call)+" in "+notified.Name(), "answers false", false)
+			}
+		}
+	}
+	if nErr == 0 {
+		c.Undecided(notified, P.Pos(notified.Pos()), "no error path", notified.Name()+" has no tested error result; the rule expects it to load the link")
+	}
+}
+
+func lpCallNameOf(call *ssa.Call) string {
+	if sc := call.Call.StaticCallee(); sc != nil {
+		return sc.Name()
+	}
+	if call.Call.IsInvoke() {
+		return call.Call.Method.Name()
+	}
+	return describeFuncValue(call.Call.Value)
+}
+
+// ---- DIFFREADS --------------------------------------------------------------------
+
+// stepItems finds the items popped from the OLD and the NEW stack in the step.
+func stepItems(S *sidesInfo, fn *ssa.Function) (oldItem, newItem *ssa.Call, stacks map[*sdSlot]bool, ok bool) {
+	stacks = map[*sdSlot]bool{}
+	for _, ci := range CallsOf(fn) {
+		call, isCall := ci.(*ssa.Call)
+		if !isCall {
+			continue
+		}
+		pc, sl := S.popOf(call)
+		if pc == nil {
+			continue
+		}
+		stacks[sl] = true
+		switch sl.cur {
+		case sdOld:
+			if oldItem != nil {
+				return nil, nil, nil, false
+			}
+			oldItem = pc
+		case sdNew:
+			if newItem != nil {
+				return nil, nil, nil, false
+			}
+			newItem = pc
+		}
+	}
+	return oldItem, newItem, stacks, oldItem != nil && newItem != nil
+}
+
+func sdIsNodePtr(t types.Type) bool { return ir.IsPtrToNamed(t, "mastNode") }
+
+// cmpZeroLeaf evaluates comparisons of value v with integer constants for v == 0.
+func cmpZeroLeaf(v ssa.Value) func(ssa.Value) (bool, bool) {
+	return func(cond ssa.Value) (bool, bool) {
+		bin, ok := cond.(*ssa.BinOp)
+		if !ok {
+			return false, false
+		}
+		var k int64
+		op := bin.Op
+		if bin.X == v {
+			kk, isK := ir.ConstInt(bin.Y)
+			if !isK {
+				return false, false
+			}
+			k = kk
+		} else if bin.Y == v {
+			kk, isK := ir.ConstInt(bin.X)
+			if !isK {
+				return false, false
+			}
+			k = kk
+			switch op { // k op v  ==>  v op' k
+			case token.LSS:
+				op = token.GTR
+			case token.LEQ:
+				op = token.GEQ
+			case token.GTR:
+				op = token.LSS
+			case token.GEQ:
+				op = token.LEQ
+			}
+		} else {
+			return false, false
+		}
+		switch op {
+		case token.LSS:
+			return 0 < k, true
+		case token.LEQ:
+			return 0 <= k, true
+		case token.GTR:
+			return 0 > k, true
+		case token.GEQ:
+			return 0 >= k, true
+		case token.EQL:
+			return 0 == k, true
+		case token.NEQ:
+			return 0 != k, true
+		}
+		return false, false
+	}
+}
+
+func runDIFFREADS(c *Ctx) {
+	S := sidesReady(c)
+	if S == nil {
+		return
+	}
+	P := c.P
+	step, notified := c.MustFunc("(*Mast).diffOne"), c.MustFunc("(*Mast).alreadyNotified")
+	if step == nil || notified == nil {
+		return
+	}
+	// (1) the entry points and the drivers (functions from which the step is
+	// reachable) read nodes only through the step: with the step removed from
+	// the call graph none of their calls may reach Persist.Load
+	noStep := map[*ssa.Function]bool{}
+	for _, fn := range P.Funcs {
+		for _, ci := range CallsOf(fn) {
+			if c.Facts.External(ci) == "Persist.Load" && fn != step {
+				noStep[fn] = true
+			}
+		}
+	}
+	for changed := true; changed; {
+		changed = false
+		for _, fn := range P.Funcs {
+			if noStep[fn] || fn == step {
+				continue
+			}
+			for _, ci := range CallsOf(fn) {
+				for _, callee := range c.Facts.Callees(ci) {
+					if callee != step && noStep[callee] {
+						noStep[fn] = true
+						changed = true
+					}
+				}
+			}
+		}
+	}
+	isEntry := map[*ssa.Function]bool{}
+	for _, e := range S.entries {
+		isEntry[e] = true
+	}
+	nDrv := 0
+	for _, fn := range S.fns {
+		if fn == step || !(isEntry[fn] || c.Facts.Reach(fn)[step]) {
+			continue
+		}
+		nDrv++
+		bad := false
+		for _, ci := range CallsOf(fn) {
+			if S.callbackKind(ci) != "" {
+				continue // the user's callback
+			}
+			for _, callee := range c.Facts.Callees(ci) {
+				if callee == step || !noStep[callee] || isEntry[callee] || c.Facts.Reach(callee)[step] {
+					continue // drivers are examined themselves
+				}
+				c.Violation(fn, P.InstrPos(ci), "node read outside the diff step: "+callee.Name(),
+					fmt.Sprintf("%s calls %s, which may read nodes, outside the diff step: these reads happen even when the two versions are the same and are not bounded by the size of the change", fn.Name(), callee.Name()))
+				bad = true
+			}
+			if c.Facts.External(ci) == "Persist.Load" {
+				c.Violation(fn, P.InstrPos(ci), "node read outside the diff step: Persist.Load",
+					fn.Name()+" reads from the store outside the diff step")
+				bad = true
+			}
+		}
+		if !bad {
+			c.OK(P.Pos(fn.Pos()), "node reads of "+ir.FuncName(fn), "only through the diff step", false)
+		}
+	}
+	if nDrv == 0 {
+		c.Undecided(nil, "-", "no driver of the diff step", "no function reachable from the diff entry points calls "+step.Name())
+	}
+	diffReadsSameKey(c, S, step)
+	diffReadsNotified(c, S, notified)
+}
+
+// diffReadsSameKey: in the both-links case, after the first keys of the two
+// loaded nodes compared equal, both nodes are expanded and neither item is
+// pushed back (otherwise one side descends below the other and common
+// subtrees are never met link against link).
+func diffReadsSameKey(c *Ctx, S *sidesInfo, step *ssa.Function) {
+	P := c.P
+	oldItem, newItem, stacks, ok := stepItems(S, step)
+	if !ok {
+		c.Undecided(step, P.Pos(step.Pos()), "popped items not found", "the diff step does not pop one item per side")
+		return
+	}
+	n := 0
+	poison := S.Poisoned() // values whose side is unknown because of a call SIDES reports
+	for _, ci := range CallsOf(step) {
+		call, isCall := ci.(*ssa.Call)
+		com := ci.Common()
+		if !isCall || com.StaticCallee() != nil || com.IsInvoke() || S.callbackKind(ci) != "" || len(com.Args) != 2 {
+			continue
+		}
+		tup, isT := call.Type().(*types.Tuple)
+		if !isT || tup.Len() != 2 {
+			continue
+		}
+		if b, isB := tup.At(0).Type().Underlying().(*types.Basic); !isB || b.Info()&types.IsInteger == 0 {
+			continue
+		}
+		if S.sideOf(com.Args[0])|S.sideOf(com.Args[1]) != sdBoth && !poison[com.Args[0]] && !poison[com.Args[1]] {
+			continue
+		}
+		// the keys must come from loaded nodes, not from the items
+		fromItem := false
+		for _, a := range com.Args {
+			if r := sdAccessRoot(a); r == ssa.Value(oldItem) || r == ssa.Value(newItem) {
+				fromItem = true
+			}
+		}
+		if fromItem {
+			continue
+		}
+		var cmpV ssa.Value
+		if call.Referrers() != nil {
+			for _, r := range *call.Referrers() {
+				if ex, isEx := r.(*ssa.Extract); isEx && ex.Index == 0 {
+					cmpV = ex
+				}
+			}
+		}
+		if cmpV == nil {
+			continue
+		}
+		n++
+		pos := P.InstrPos(call)
+		leaf := cmpZeroLeaf(cmpV)
+		pruned := func(from, to *ssa.BasicBlock) bool {
+			if len(from.Instrs) == 0 || len(from.Succs) != 2 || from.Succs[0] == from.Succs[1] {
+				return false
+			}
+			iff, isIf := from.Instrs[len(from.Instrs)-1].(*ssa.If)
+			if !isIf {
+				return false
+			}
+			v, known := sdEvalCond(iff.Cond, leaf, 0)
+			if !known {
+				return false
+			}
+			if v {
+				return to == from.Succs[1]
+			}
+			return to == from.Succs[0]
+		}
+		expands := map[side]map[*ssa.BasicBlock]bool{sdOld: {}, sdNew: {}}
+		var pushBacks []ssa.CallInstruction
+		for _, pc := range CallsOf(step) {
+			callee := pc.Common().StaticCallee()
+			if callee == nil || !S.slice[callee] {
+				continue
+			}
+			var st *sdSlot
+			node, item := false, false
+			for _, a := range pc.Common().Args {
+				if sl := S.slotRef(a); sl != nil && stacks[sl] {
+					st = sl
+				} else if sdIsNodePtr(a.Type()) {
+					node = true
+				} else if r := ir.ResolveCell(ir.Strip(a)); r == ssa.Value(oldItem) || r == ssa.Value(newItem) {
+					item = true
+				}
+			}
+			if st == nil {
+				continue
+			}
+			if node {
+				expands[st.cur][pc.Block()] = true
+			}
+			if item {
+				pushBacks = append(pushBacks, pc)
+			}
+		}
+		reach := ir.ReachableFrom(call.Block(), pruned)
+		bad := false
+		for _, pb := range pushBacks {
+			if reach[pb.Block()] {
+				c.Violation(step, P.InstrPos(pb), "item pushed back although both nodes start with the same key",
+					"the first keys of the old and the new node compared equal (cmp == 0): both nodes are at the same level and must both be expanded; pushing an unexpanded item back makes the other side descend alone, so unchanged subtrees below are loaded instead of being skipped by link equality")
+				bad = true
+			}
+		}
+		ei := ir.ErrorResultIndex(step.Signature)
+		for _, sd := range []side{sdOld, sdNew} {
+			without := ir.ReachableFrom(call.Block(), func(from, to *ssa.BasicBlock) bool {
+				return pruned(from, to) || expands[sd][to]
+			})
+			for _, r := range ir.Returns(step) {
+				if without[r.Block()] && ei >= 0 && ir.IsNilConst(r.Results[ei]) && !expands[sd][r.Block()] {
+					c.Violation(step, pos, fmt.Sprintf("%s node not expanded when both nodes start with the same key", sd),
+						fmt.Sprintf("with cmp == 0 the step can finish without pushing the children of the %s node: the two sides get out of level and common subtrees are loaded", sd))
+					bad = true
+					break
+				}
+			}
+		}
+		if !bad {
+			c.OK(pos, "first keys equal (cmp == 0) in "+step.Name(), "both nodes are expanded, no item is pushed back", false)
+		}
+	}
+	if n == 0 {
+		c.Undecided(step, P.Pos(step.Pos()), "no comparison of the first keys of the two loaded nodes",
+			"the rule expects the both-links case to compare a key of the old node with a key of the new node through the key order")
+	}
+}
+
+// sdAccessRoot follows field/element/load steps of an access path to its base.
+func sdAccessRoot(v ssa.Value) ssa.Value {
+	for i := 0; i < 16; i++ {
+		v = ir.ResolveCell(ir.Strip(v))
+		switch x := v.(type) {
+		case *ssa.UnOp:
+			if x.Op != token.MUL {
+				return v
+			}
+			v = x.X
+		case *ssa.FieldAddr:
+			v = x.X
+		case *ssa.Field:
+			v = x.X
+		case *ssa.IndexAddr:
+			v = x.X
+		case *ssa.Index:
+			v = x.X
+		default:
+			return v
+		}
+	}
+	return v
+}
+
+// diffReadsNotified: alreadyNotified loads only the link it is asked about
+// and, below it, the child of a node that has exactly one link (an empty
+// pass-through node).
+func diffReadsNotified(c *Ctx, S *sidesInfo, notified *ssa.Function) {
+	P := c.P
+	np := len(notified.Params)
+	if np == 0 {
+		return
+	}
+	linkP := notified.Params[np-1]
+	lenIsOne := func(b *ssa.BasicBlock, slice ssa.Value) bool {
+		want := ir.Sym(slice)
+		for _, f := range sdExpandFacts(ir.FactsAt(b), 0) {
+			bin, ok := f.Cond.(*ssa.BinOp)
+			if !ok {
+				continue
+			}
+			eq := (bin.Op == token.EQL && f.Truth) || (bin.Op == token.NEQ && !f.Truth)
+			if !eq {
+				continue
+			}
+			x, y := bin.X, bin.Y
+			if _, isK := ir.ConstInt(x); isK {
+				x, y = y, x
+			}
+			if k, isK := ir.ConstInt(y); !isK || k != 1 {
+				continue
+			}
+			call, ok := x.(*ssa.Call)
+			if !ok {
+				continue
+			}
+			if bi, ok := call.Call.Value.(*ssa.Builtin); ok && bi.Name() == "len" && ir.Sym(call.Call.Args[0]) == want {
+				return true
+			}
+		}
+		return false
+	}
+	var allowed func(v ssa.Value, seen map[ssa.Value]bool) (bool, string)
+	allowed = func(v ssa.Value, seen map[ssa.Value]bool) (bool, string) {
+		v = ir.ResolveCell(ir.Strip(v))
+		if seen[v] {
+			return true, ""
+		}
+		seen[v] = true
+		switch x := v.(type) {
+		case *ssa.Parameter:
+			if x == linkP {
+				return true, ""
+			}
+		case *ssa.Phi:
+			for _, e := range x.Edges {
+				if ok, why := allowed(e, seen); !ok {
+					return false, why
+				}
+			}
+			return true, ""
+		case *ssa.UnOp:
+			if ia, ok := x.X.(*ssa.IndexAddr); ok && x.Op == token.MUL {
+				if lenIsOne(x.Block(), ia.X) {
+					return true, ""
+				}
+				return false, sdDesc(v) + " is followed without the node being known to have exactly one link"
+			}
+		}
+		return false, sdDesc(v) + " is neither the link asked about nor the only child of a pass-through node"
+	}
+	n := 0
+	for _, ci := range CallsOf(notified) {
+		ml, name := sdMayLoad(c, ci)
+		if !ml {
+			continue
+		}
+		n++
+		pos := P.InstrPos(ci)
+		args := ci.Common().Args
+		var linkArg ssa.Value
+		for _, a := range args {
+			if _, isIface := a.Type().Underlying().(*types.Interface); isIface && !sdSkipType(a.Type()) {
+				linkArg = a
+			}
+		}
+		if linkArg == nil {
+			c.Undecided(notified, pos, "load by "+name+" without a link argument", "the rule cannot tell which node "+name+" reads")
+			continue
+		}
+		if ok, why := allowed(linkArg, map[ssa.Value]bool{}); ok {
+			c.OK(pos, "load by "+name+" in "+notified.Name(), "the link asked about, or the only child of a pass-through node", false)
+		} else {
+			c.Violation(notified, pos, "load by "+name+" of a node that is not a pass-through child",
+				fmt.Sprintf("%s reads %s: %s — the memo check then loads nodes (possibly whole paths of unchanged nodes) that the cost bound does not account for", notified.Name(), sdDesc(linkArg), why))
+		}
+	}
+	if n == 0 {
+		c.Undecided(notified, P.Pos(notified.Pos()), "no load", notified.Name()+" does not load; the rule expects it to read the link it is asked about")
+	}
+}
